@@ -2,4 +2,6 @@
 EXTENDS Agent
 \* u1 holds an upgradeable hash (set 1, default 2) for p1; u2 (if any) is up to date
 MCInit1 == [u \in Users |-> IF u = "u1" THEN File("p1", 1, FALSE) ELSE File("p2", 2, TRUE)]
+MCPolicyAll == {u \o "/" \o p : u \in Users, p \in Pws}
+MCPolicyP1  == {u \o "/" \o "p1" : u \in Users}
 =============================================================================
